@@ -65,6 +65,24 @@ def job(spec):
                 pars = float(np.sum(w * np.abs(z) ** 2))
                 return {"m": m, "nbins": len(z), "re": _q(z.real, QS), "im": _q(z.imag, QS), "parsq": int(round(pars * QS)), "q": QS}
             ev({"f": "rfft", "x": c["x"]}, rf)
+            if c.get("user_fft"):          # the documented hook for a caller-supplied FFT implementation
+
+                def rf2():
+                    fs = ts.rfft(fftn=np.fft.rfft)
+                    z = np.asarray(fs.data).astype(np.complex128)
+                    m = int(fs.header.nsamples)
+                    w = np.ones(len(z)) * 2.0
+                    w[0] = 1.0
+                    if m % 2 == 0:
+                        w[-1] = 1.0
+                    return {"m": m, "nbins": len(z), "re": _q(z.real, QS), "im": _q(z.imag, QS),
+                            "parsq": int(round(float(np.sum(w * np.abs(z) ** 2)) * QS)), "q": QS}
+                ev({"f": "rfft", "x": c["x"], "arg": "fftn=numpy.fft.rfft"}, rf2)
+
+                def rt2():
+                    back = ts.rfft(fftn=np.fft.rfft).ifft(ifftn=np.fft.irfft)
+                    return {"outq": _q(back.data, QT), "nhdr": int(back.header.nsamples)}
+                ev({"f": "roundtrip", "x": c["x"], "arg": "numpy.fft"}, rt2)
 
             def rt():
                 back = ts.rfft().ifft()
@@ -120,7 +138,7 @@ def run(v) -> None:
         return [rng.randrange(-amp, amp + 1) for _ in range(n)]
     for n in range(1, maxn + 1):
         for cls in (["rand", "impulse", "const"] if quick else ["rand", "impulse", "const", "ramp", "rand"]):
-            cases.append({"kind": "spec", "x": seq(n, cls, 50)})
+            cases.append({"kind": "spec", "x": seq(n, cls, 50), "user_fft": cls == "rand"})
         ks = sorted({1, 2, n, max(1, n // 2), rng.randrange(1, n + 1)}) if quick else list(range(1, n + 1))
         if not quick and n > 24:
             ks = sorted(set(rng.sample(ks, 8)) | {1, n})
